@@ -132,6 +132,11 @@ def scripted(ver):
         [("recv", "5;1;1;0;0;1"), ("recv", "5;255;3;0;0;50"), ("recv", "5;255;0;0;17;x"), ("recv", "5;9;1;0;0;1"), ("recv", "5;9;2;0;0;")],
         [("recv", "255;255;3;0;3;"), ("recv", "255;255;3;0;3;"), ("recv", "2;255;3;0;6;"), ("recv", "2;255;3;0;1;")],
         pres + [("fail",), ("recv", "7;1;1;0;0;1"), ("recv", "7;1;1;0;0;1"), ("recv", "7;255;3;0;0;5")],
+        pres + [("recv", "1;9;1;0;0;1"), ("recv", wake), ("recv", "1;9;1;0;0;1"), ("recv", "1;9;2;0;0;")],
+        pres + [("recv", "1;9;1;0;0;1"), ("recv", f"1;255;0;0;17;{v}"), ("recv", "1;1;1;0;0;3"), ("recv", "1;9;1;0;0;1")],
+        pres + [("recv", wake), ("send", 1, 1, 1, 0, 0, "25", True), ("recv", "1;1;2;0;0;"), ("recv", wake), ("recv", wake)],
+        [("recv", "0;255;3;0;2;"), ("recv", "0;255;3;0;2;abc"), ("recv", "3;255;3;0;2;n/a"), ("recv", "0;255;3;0;2;2.3.2"), ("recv", "0;255;3;0;9;log")],
+        [("recv", f"0;255;0;0;18;{v}"), ("recv", "0;255;3;0;2;2.0.0"), ("recv", f"0;255;0;0;18;{v}"), ("recv", "0;255;3;0;32;")],
     ]
 
 
